@@ -6,6 +6,7 @@ package main
 import (
 	"fmt"
 	"os"
+	"sync"
 	"go/constant"
 	"go/token"
 	"go/types"
@@ -115,12 +116,25 @@ type Exec struct {
 	onceDone     map[*Cell]bool
 	branchSites  int
 	evOn         bool
+	qcache       map[string]cacheEntry
+	cacheHits    int
 }
 
 func (ex *Exec) nextID() int { ex.idc++; return ex.idc }
 
 func (ex *Exec) unsupported(msg string) {
-	panic(pathEnd{kind: "unsupported", msg: msg})
+	where := ""
+	if f := ex.curFrame(); f != nil {
+		where = " [in " + f.fn.String()
+		if f.caller != nil {
+			where += " <- " + f.caller.fn.String()
+			if f.caller.caller != nil {
+				where += " <- " + f.caller.caller.fn.String()
+			}
+		}
+		where += "]"
+	}
+	panic(pathEnd{kind: "unsupported", msg: msg + where})
 }
 
 func (ex *Exec) goPanicStr(msg string) {
@@ -245,6 +259,9 @@ func (ex *Exec) global(g *ssa.Global) *Cell {
 			c = ex.newCell(ex.sentinelError(g.String()))
 		} else if v, ok := ex.modelGlobal(g, et); ok {
 			c = ex.newCell(v)
+		} else if !globalTouchedByInit(g) {
+			// no initialiser: the zero value is exact
+			c = ex.newCell(ex.zero(et))
 		} else {
 			ex.unsupported("read of uninitialised global " + g.String())
 		}
@@ -696,4 +713,38 @@ func (ex *Exec) implements(t types.Type, it *types.Interface) bool {
 		return true
 	}
 	return types.Implements(t, it)
+}
+
+var initTouchCache = map[*ssa.Global]bool{}
+var initTouchMu sync.Mutex
+
+// globalTouchedByInit reports whether any init function of g's package mentions g.
+func globalTouchedByInit(g *ssa.Global) bool {
+	initTouchMu.Lock()
+	defer initTouchMu.Unlock()
+	if v, ok := initTouchCache[g]; ok {
+		return v
+	}
+	touched := false
+	for name, m := range g.Pkg.Members {
+		f, ok := m.(*ssa.Function)
+		if !ok || !(name == "init" || strings.HasPrefix(name, "init#")) {
+			continue
+		}
+		fns := []*ssa.Function{f}
+		fns = append(fns, f.AnonFuncs...)
+		for _, fn := range fns {
+			for _, b := range fn.Blocks {
+				for _, in := range b.Instrs {
+					for _, op := range in.Operands(nil) {
+						if *op == ssa.Value(g) {
+							touched = true
+						}
+					}
+				}
+			}
+		}
+	}
+	initTouchCache[g] = touched
+	return touched
 }
